@@ -4,9 +4,10 @@
      - every update message the server produces names, in its mappings, only entities that are in its changes
        array (the mapping is registered no later than the tick in which the entity first becomes visible to
        that client: `unknown_visible_is_sent_whole` then puts the whole entity into the message);
-     - when a connected client applies the messages of its inbox, every mapping is harmless at that moment
-       ([inbox_maps_ok], [maps_ok] of Repl/ClientStructSpec.v: the server entity is unknown to the client, the
-       pre-spawned entity, if alive, is neither marked nor mapped);
+     - when a connected client applies the messages of its inbox, every mapping is harmless at the moment it is
+       applied, i.e. after the despawn records of its message ([inbox_maps_ok], [maps_ok] at [maps_pre] of
+       Repl/ClientStructSpec.v: the server entity is unknown to the client, the pre-spawned entity, if alive, is
+       neither marked nor mapped);
      - the client operations of a frame are harmless ([cops_safe]: no pre-spawned entity that something is mapped
        to is despawned by the client).  Without mappings this follows from the invariant "pre-spawned entities
        are never mapped" of Repl/StructE2ESess_proofs.v; with mappings it is the script author's obligation.
@@ -300,7 +301,7 @@ Fixpoint maps_okb (c : client) (maps : list (N * N)) : bool :=
 Fixpoint inbox_maps_okb (c : client) (us : list update_msg) : bool :=
   match us with
   | [] => true
-  | u :: t => maps_okb (set_upd_tick c (u_tick u)) (u_maps u) &&
+  | u :: t => maps_okb (maps_pre c u) (u_maps u) &&
               match apply_update_message c u with Ok c' => inbox_maps_okb c' t | _ => true end
   end.
 
